@@ -89,6 +89,11 @@ def instances(tier):
         for L in ([2, 3, 4] if quick else [2, 3, 4, 5]):
             out.append(dict(id="richardson-%s-L%d" % (bn, L), kind="richardson", cls=bn, levels=L,
                             budget=dict(wall_s=80 if quick else 800, max_paths=400)))
+    # the order conditions on the SECOND step taken by one wrapper object (how OdeSystem drives it): whatever the first step left in the
+    # object must not shorten the extrapolation of the next one
+    for bn, L in ([("EulerSolver", 3), ("MidpointSolver", 4)] if quick else [(b_, L_) for b_ in bases for L_ in (3, 4, 5)]):
+        out.append(dict(id="richardson-%s-L%d-second-step-of-the-object" % (bn, L), kind="richardson", cls=bn, levels=L, second_step=True,
+                        budget=dict(wall_s=80 if quick else 800, max_paths=400)))
     return out
 
 
@@ -458,6 +463,8 @@ def _richardson(c, inst, t, h):
                         bi.update_timestep = ctrl_stub(c, bi, fixed=1.0)
                     y0 = c.array([0] * dim) if c.symbolic else np.zeros(dim)
                     with patched(opt, "nonlinear_roots", picard_root_stub(c, n + 2)), patched(it, "broyden_update_jac", lambda B, dx, df, Binv=None: B):
+                        if inst.get("second_step"):
+                            integ.adaptive_richardson(rhs, t, y0, {}, h)        # first step of the object (same data): result discarded
                         return integ.adaptive_richardson(rhs, t, y0, {}, h)
                 st, r = run(go)
                 if st != "ok":
